@@ -25,9 +25,10 @@ stored.
   `RTL.call` (model `Tfl.Alt.rtlCall`) returns identical outputs on every input.
 * `rtl_seed_none_not_a_function` (finding F-C11-i): for `seed = none` there are two builds of the SAME
   stored config on the same input shapes with different structures, and with the same weights
-  different outputs: the hypothesis `seed = some s` cannot be dropped.  The real code agrees:
-  `RTL(random_seed=None)` rebuilt from its config has an equal config and a different
-  `_rtl_structure` (harness stream `structure`, clause `outputs_equal`, arg `random_seed=None`).
+  different outputs: the hypothesis `seed = some s` cannot be dropped.  The real code agreed until
+  fix 3372acf (`RTL(random_seed=None)` rebuilt from its config had an equal config and a different
+  `_rtl_structure`); since then the constructor draws and STORES a concrete seed, so every stored
+  config has `seed = some s` (harness stream `structure`, clause `outputs_equal`, arg `random_seed=None`).
 * random ensembles (`lattices='random'`): `set_random_lattice_ensemble` WRITES the drawn structure
   into `model_config.lattices`, which `get_config` stores — the rebuilt model reads the stored list
   and does not draw again, whatever the seed (no theorem needed: it is the `lattices` row of the
@@ -146,7 +147,7 @@ theorem structure_of_shuffles :
 (equal `get_config()`), the same input shapes (one key with three features) and two builds whose
 OS-seeded generators drew different shuffles: different structures, and with the same weights
 different outputs on the input `(1, 2, 3)` — for any `perm` whatsoever.  This is what the real
-`RTL(random_seed=None)` does when it is rebuilt from its config. -/
+`RTL(random_seed=None)` did when it was rebuilt from its config before fix 3372acf (which stores a drawn seed). -/
 theorem rtl_seed_none_not_a_function (perm : Nat → Nat → Nat → List Nat × List Nat) :
     rtlBuild perm seedNone [] [3] ([0, 1, 2], [0, 1, 2, 3]) ≠ rtlBuild perm seedNone [] [3] ([2, 1, 0], [3, 1, 2, 0]) ∧
     rtlLayerOutput perm seedNone [] [3] ([0, 1, 2], [0, 1, 2, 3]) firstInput false [1, 2, 3] = .ok [1, 3] ∧
